@@ -1,5 +1,6 @@
 from __future__ import annotations
 
+import re
 from enum import Enum
 from typing import TYPE_CHECKING
 
@@ -15,6 +16,9 @@ if TYPE_CHECKING:
     from sdc11073 import xml_utils
 
 CHECK_NAMESPACES = False  # can be used to enable additional checks for too many namespaces or undefined namespaces
+
+# everything outside the Char production of XML 1.0
+_NOT_XML_CHAR = re.compile('[^\t\n\r\x20-\ud7ff\ue000-\ufffd\U00010000-\U0010ffff]')
 
 
 class SoapResponseError(Exception):
@@ -151,10 +155,14 @@ class Fault(MessageType):
     additional_namespaces = (ns_hlp.XML, ns_hlp.WSE)
 
     def add_reason_text(self, text: str, lang: str = 'en-US'):
-        """Add reason text to list."""
+        """Add reason text to list.
+
+        Characters that XML 1.0 does not allow (control characters, e.g. from a request path or an exception text)
+        are replaced, otherwise the fault could not be serialized.
+        """
         txt = reasontext()
         txt.lang = lang
-        txt.text = text
+        txt.text = _NOT_XML_CHAR.sub('\ufffd', text)
         self.Reason.Text.append(txt)
 
     def set_sub_code(self, sub_code: etree.QName):
